@@ -239,9 +239,9 @@ func c01Script(sc *L1Scenario, tier int) {
 func genC01(seed uint64, tier, outdir string) *Report {
 	w := DefaultL1Weights
 	w.Create, w.Deposit, w.Propose, w.Claim, w.Send, w.Params = 8, 24, 14, 26, 10, 4
-	return runMoneyStream(MoneyStream{Prop: "C01", Weights: w, NRandom: [2]int{18, 600}, Len: [2]int{60, 140},
-		Scripts: []func(*L1Scenario, int){c01Script}, NScript: [2]int{18, 600},
+	return runMoneyStream(MoneyStream{Prop: "C01", Weights: w, NRandom: [2]int{18, 200}, Len: [2]int{60, 140},
+		Scripts: []func(*L1Scenario, int){c01Script}, NScript: [2]int{18, 200},
 		Monitors: []L1Monitor{c01Monitor},
-		Rule: "a case is one multi-bridge L1 history on a fresh instance (scripted cross-bridge replay scenario plus random tail, or fully random); distinct by hash of the op list; non-trivial = at least one finalization accepted and at least one rejected"},
+		Rule:     "a case is one multi-bridge L1 history on a fresh instance (scripted cross-bridge replay scenario plus random tail, or fully random); distinct by hash of the op list; non-trivial = at least one finalization accepted and at least one rejected"},
 		seed, tier, outdir)
 }
